@@ -21,13 +21,20 @@ pub fn pkgdb(input: &Value) -> Out {
     let root = scratch_dir();
     let db = root.join("pkgdb");
     let kind = input["root"].as_str().unwrap_or("dir").to_string();
-    let bigs: Vec<String> = input["entries"].as_array().map(|a| a.iter().filter(|e| e["big"] == "T").map(|e| to_string(&e["name"])).collect()).unwrap_or_default();
+    // "big": T = longer than 8 KiB with a two-byte character across the 8192nd byte; K = the same
+    // around the 65 536th byte; M = around the 1 048 576th byte (+CONTENTS only: a real package's
+    // packing list can be that long, the other '+' files of that package stay short)
+    let bigs: Vec<(String, usize)> = input["entries"].as_array().map(|a| a.iter().filter_map(|e| {
+        let at = match e["big"].as_str() { Some("T") => 8192, Some("K") => 65536, Some("M") => 1 << 20, _ => 0 };
+        if at > 0 { Some((to_string(&e["name"]), at)) } else { None }
+    }).collect()).unwrap_or_default();
     let content = |ent: &MetadataEntry, name: &str, empty: bool| {
+        let big = bigs.iter().find(|b| b.0 == name).map(|b| b.1).unwrap_or(0);
+        let big = if big > 8192 && *ent != MetadataEntry::Contents { 0 } else { big };
         if empty { String::new() }
-        else if bigs.iter().any(|b| b == name) {
-            // longer than 8 KiB, a two-byte character across the 8192nd byte, more text after it
+        else if big > 0 {
             let head = format!("{} of {}\n", ent.to_filename(), name);
-            format!("{}{}\u{e9}{}\u{65e5}\n", head, "a".repeat(8191 - head.len()), "b".repeat(8190))
+            format!("{}{}\u{e9}{}\u{65e5}\n", head, "a".repeat(big - 1 - head.len()), "b".repeat(8190))
         }
         else { format!("{} of {}\n", ent.to_filename(), name) }
     };
@@ -62,10 +69,11 @@ pub fn pkgdb(input: &Value) -> Out {
     let mut errors = 0u64;
     let mut reads_ok = true;
     let mut evals = 1;
+    let mut again = false;
     let open = match PkgDB::open(&db) {
         Err(_) => "err",
-        Ok(it) => {
-            for item in it {
+        Ok(mut it) => {
+            while let Some(item) = it.next() {
                 evals += 1;
                 match item {
                     Ok(pkg) => {
@@ -86,13 +94,16 @@ pub fn pkgdb(input: &Value) -> Out {
                 }
                 if evals > 10_000 { break; }
             }
+            // an exhausted iterator stays exhausted (a second `for` over the same handle, count()
+            // after a loop): two more calls, which must return normally and yield nothing
+            if evals <= 10_000 { again = it.next().is_some() | it.next().is_some(); }
             "ok"
         }
     };
     let _ = std::fs::remove_dir_all(&root);
     listed.sort_by_key(|v| v.to_string());
     let n = listed.len() as u64;
-    Out::new(json!({"open": open, "listed": listed, "errors": errors, "reads_ok": tf(reads_ok)}), evals, (n > 0) as u64)
+    Out::new(json!({"open": open, "listed": listed, "errors": errors, "reads_ok": tf(reads_ok), "again": tf(again)}), evals, (n > 0) as u64)
 }
 
 pub fn pkgdb_compare(case: &Value, obs: &Value) -> Vec<Mismatch> {
@@ -103,6 +114,9 @@ pub fn pkgdb_compare(case: &Value, obs: &Value) -> Vec<Mismatch> {
     let mut ms = vec![];
     if exp != got || case["out"]["open"] != obs["open"] || case["out"]["errors"] != obs["errors"] {
         ms.push(Mismatch { tag: String::new(), detail: json!({"expected": case["out"], "observed": obs}) });
+    }
+    if obs["again"] != "F" {
+        ms.push(Mismatch { tag: String::new(), detail: json!({"expected": "an exhausted iteration yields nothing more", "observed": obs["again"]}) });
     }
     if obs["reads_ok"] != "T" {
         ms.push(Mismatch { tag: String::new(), detail: json!({"expected": "read_metadata returns the package's +FILE content", "observed": obs["reads_ok"]}) });
